@@ -265,13 +265,47 @@ def run(ctx):
     # 6. predictor geometry
     pr = F.fn("Stream::decompress_predictor")
     import byteset
-    st = None
+    from mir import op_place
+    # the variable: the local that receives .get(b"Predictor")....unwrap_or(1); the PNG path: the block calling decode_frame.
+    # Value-set analysis over the window 0..=255 of that variable: the PNG path is taken for exactly {10..15}.
+    pvar = None
     for c in pr.calls:
-        if (c.fn or "").endswith("RangeInclusive::<Idx>::contains"):
-            bv = byteset.ByteVar(F, pr, lambda o: False)
-            st = bv._const_struct(c.args[0])
-    ctx.ob("R-TABLE", "predictor-range", st is not None and st["fields"].get("start") == "10" and st["fields"].get("end") == "15", "PNG predictors are 10..=15", pr.where(),
-           what="decompress_predictor does not treat exactly the predictor values 10..=15 as PNG predictors")
+        if c.local and c.cname.endswith("Dictionary::get") and lib._const_bytes_through(pr, c.args[1]) == b"Predictor" and not c.dest["p"]:
+            cur = c.dest["l"]
+            for _ in range(8):
+                if cur in pr.names:
+                    break
+                nxt = [c2 for c2 in pr.calls if c2.args and op_place(c2.args[0]) is not None and op_place(c2.args[0]) == {"l": cur, "p": []}]
+                mv = [st_["lhs"]["l"] for _bi, _si, st_ in pr.stmts() if "lhs" in st_ and not st_["lhs"]["p"] and st_["rv"]["k"] == "use"
+                      and op_place(st_["rv"]["o"]) == {"l": cur, "p": []}]
+                if len(nxt) == 1 and not nxt[0].dest["p"] and not mv:
+                    cur = nxt[0].dest["l"]
+                elif len(mv) == 1 and not nxt:
+                    cur = mv[0]
+                else:
+                    break
+            if cur in pr.names and pr.lty(cur) == "i64":
+                pvar = cur
+    png = [c for c in pr.calls if c.local and c.cname.endswith("png::decode_frame")]
+    got = None
+    if pvar is not None and len(png) == 1:
+        aliases = {pvar}
+        for bi, si, st_ in pr.stmts():
+            if "lhs" in st_ and not st_["lhs"]["p"] and st_["rv"]["k"] == "use":
+                q = op_place(st_["rv"]["o"])
+                if q is not None and not q["p"] and q["l"] in aliases and len(pr.defs.get(st_["lhs"]["l"], [])) == 1:
+                    aliases.add(st_["lhs"]["l"])
+        def is_var(o):
+            q = op_place(o)
+            return q is not None and not q["p"] and q["l"] in aliases
+        bv = byteset.ByteVar(F, pr, is_var)
+        R = bv.reach_sets()
+        got = R.get(png[0].bb, frozenset())
+        if bv.unknown:
+            got = None
+    ctx.ob("R-TABLE", "predictor-range", got == frozenset(range(10, 16)), "PNG predictors are 10..=15 (value set reaching png::decode_frame)", pr.where(),
+           what="decompress_predictor does not treat exactly the predictor values 10..=15 as PNG predictors (values reaching png::decode_frame: %s)"
+                % (byteset.fmt_set(got) if got is not None else "undetermined"))
     keys = set(lib._const_bytes_through(b2, c.args[1]) for b2 in F.with_closures(pr) for c in b2.calls if c.local and c.cname.endswith("Dictionary::get"))
     ctx.ob("R-TABLE", "predictor-params", {b"Predictor", b"Columns", b"Colors", b"BitsPerComponent"} <= keys, "Predictor, Columns, Colors, BitsPerComponent are read", pr.where(),
            what="decompress_predictor no longer reads all of Predictor, Columns, Colors, BitsPerComponent")
